@@ -87,6 +87,8 @@ type Env struct {
 	curScope   map[int]string // thread -> scope name the running op resolves in ("" provider/root, "#build")
 	CallScope  map[*kit.Call]string
 	BuildPanic any
+	SharedCtx    context.Context
+	SharedCancel context.CancelFunc
 }
 
 type ctxKey struct{}
@@ -175,6 +177,13 @@ func (e *Env) Do(op Op) *Res {
 			switch op.Ctx {
 			case "nil":
 				ctx = nil
+			case "shared":
+				// one long-lived cancellable caller context shared by all scopes, never cancelled
+				if e.SharedCtx == nil {
+					e.SharedCtx, e.SharedCancel = context.WithCancel(context.WithValue(context.Background(), ctxKey{}, "shared"))
+				}
+				ctx = e.SharedCtx
+				sr.CallerCtx = ctx
 			case "cancel":
 				base := context.WithValue(context.Background(), ctxKey{}, op.Bind)
 				ctx, sr.Cancel = context.WithCancel(base)
